@@ -151,7 +151,7 @@ func (e *SyncedCachedEnforcer) InvalidateCache() error {
 
 func (e *SyncedCachedEnforcer) checkOneAndRemoveCache(params ...interface{}) (bool, error) {
 	if atomic.LoadInt32(&e.enableCache) != 0 {
-		key, ok := e.getKey(params...)
+		key, ok := e.getKey(ruleAsParams(params)...)
 		if ok {
 			if err := e.cache.Delete(key); err != nil && err != cache.ErrNoSuchKey {
 				return false, err
@@ -164,8 +164,8 @@ func (e *SyncedCachedEnforcer) checkOneAndRemoveCache(params ...interface{}) (bo
 func (e *SyncedCachedEnforcer) checkManyAndRemoveCache(rules [][]string) (bool, error) {
 	if len(rules) != 0 {
 		if atomic.LoadInt32(&e.enableCache) != 0 {
-			irule := make([]interface{}, len(rules[0]))
 			for _, rule := range rules {
+				irule := make([]interface{}, len(rule))
 				for i, param := range rule {
 					irule[i] = param
 				}
